@@ -299,6 +299,37 @@ def run(ctx):
     # ---- generator outputs
     gens = list(zoo.fixed_examples()) + zoo.random_cases(rng, 14 if quick else 120, max_seeds=30 if quick else 80)
     gens += [("honey8", "example", eg.honeycomb_lattice(8)), ("vor140", "vor", zoo.voronoi(rng, 140))]      # 256 and 280 vertices
+    # lattices exactly as other koala functions hand them out (index / crossing arrays that are not int64), lattices built from narrow arrays, and lattices whose
+    # number of plaquettes is not what Euler's formula for a connected torus map gives (a plaquette-free star, a one-cell honeycomb, two components)
+    as_made = []
+    try:
+        as_made.append(("dual-as-returned", gu.make_dual(zoo.voronoi(rng, 20))))
+    except Exception:
+        pass
+    try:
+        np.random.seed(int(rng.integers(2 ** 31))); as_made.append(("penrose-as-returned", __import__("koala.quasicrystals", fromlist=["x"]).penrose_tiling(6)))
+    except Exception:
+        pass
+    Pn, En, Cn = zoo.raw(eg.honeycomb_lattice(3))
+    as_made += [("honey3[uint8,int8]", Lattice(Pn.copy(), En.astype(np.uint8), Cn.astype(np.int8))), ("honey3[int32,float64 crossing]", Lattice(Pn.copy(), En.astype(np.int32), Cn.astype(np.float64))),
+                ("star_sheared", eg.star_lattice_sheared()[0]), ("honey1", eg.honeycomb_lattice(1)), ("n_ladder6", eg.n_ladder(6, True)), ("square23-as-returned", eg.square_lattice(2, 3))]
+    Pa, Ea, Ca = zoo.raw(eg.two_triangles())
+    as_made.append(("two components", Lattice(np.concatenate([0.5 * Pa, 0.5 * Pa + 0.5]), np.concatenate([Ea, Ea + len(Pa)]), np.concatenate([Ca, Ca]))))
+    for name, l in as_made:
+        try:
+            _ = l.plaquettes
+            n_before = l.n_plaquettes
+            for proto in (2, 5):
+                r = pickle.loads(pickle.dumps(l, protocol=proto))
+                if not (l == r and r == l):
+                    ctx.impl_violation(f"{name}: the lattice restored from a protocol-{proto} pickle does not compare equal to its original (taken exactly as built / returned)", dict(case=name, protocol=proto, lattice=zoo.lat_to_json(l)))
+                elif r.n_plaquettes != n_before or len(r.plaquettes) != n_before:
+                    ctx.impl_violation(f"{name}: the restored lattice reports {r.n_plaquettes} plaquettes, its original {n_before}", dict(case=name, protocol=proto, lattice=zoo.lat_to_json(l)))
+                elif not (np.array_equal(np.asarray(r.edges.indices, dtype=np.int64), np.asarray(l.edges.indices, dtype=np.int64)) and np.array_equal(np.asarray(r.edges.crossing, dtype=np.int64), np.asarray(l.edges.crossing, dtype=np.int64))):
+                    ctx.impl_violation(f"{name}: edges / crossings differ after a protocol-{proto} round trip", dict(case=name, protocol=proto, lattice=zoo.lat_to_json(l)))
+                ctx.case(("as-made", name, proto), nontrivial=True)
+        except Exception as ex:
+            ctx.impl_violation(f"{name}: round trip of a lattice taken as built raised {type(ex).__name__}: {ex}", dict(case=name))
     panel_set = []
     for name, fam, l in gens:
         ctx.count("family:" + fam)
